@@ -287,6 +287,7 @@ func (x *Exec) evalSelector(e *ast.SelectorExpr, st *State) Term {
 	if sel, ok := x.info().Selections[e]; ok {
 		switch sel.Kind() {
 		case types.FieldVal:
+			x.guardCheck(e, st, false)
 			base := x.eval(e.X, st)
 			return x.walkFields(st, base, x.typeOf(e.X), sel.Index(), e.Pos())
 		case types.MethodVal:
